@@ -1,7 +1,11 @@
 //! C11 driver: replays TLC-generated schedules (and seeded random ones) on the real caches.
 //!
-//! usage: drv_conc --target mem|disk --programs <file> --out <file>
-//!        drv_conc --target mem|disk --random N --tasks T --ops K --keys M --out <file>
+//! usage: drv_conc --target mem|memc|disk|diskc|dyn --programs <file> --out <file>
+//!        drv_conc --target mem|memc|disk|diskc|dyn --random N --tasks T --ops K --keys M --out <file>
+//! Targets memc / diskc = MemoryCache::new_with_cleanup / DiskCache::new_with_background_tasks: the background cleanup task lives on a private tokio
+//! runtime whose clock is paused; the operation "sweep" advances that clock by one cleanup interval and
+//! drives the runtime on the calling thread, so one "sweep" = one tick of the cleanup task, executed by
+//! (and scheduled as part of) the task that issued it.
 //!
 //! Program (one JSON object per line, from MC_CacheConc / MC_DiskConc):
 //!   {"init":["none"|"live"|"exp", ...per key], "progs":[[{"op":..,"k":..}, ...], ...per task],
@@ -271,6 +275,48 @@ fn cache_exec<C: AsyncCache<RibbitKey> + 'static>(cache: Arc<C>) -> Exec {
     Arc::new(move |op, k, id| futures::executor::block_on(exec(&*cache, op, k, id)))
 }
 
+/// A cache with its background cleanup task (see the module comment): `make` runs inside the private
+/// runtime (paused clock) so that the task is spawned there; "sweep" = advance the clock by one interval
+/// and drive the runtime on the calling thread.
+const TICK: Duration = Duration::from_secs(60);
+fn ticking_exec<C: AsyncCache<RibbitKey> + 'static>(make: impl FnOnce() -> C) -> Exec {
+    let rt = tokio::runtime::Builder::new_current_thread().enable_time().start_paused(true).build().expect("runtime");
+    let cache = rt.block_on(async {
+        let c = make();
+        // the interval's first tick is immediate: let the task sweep the empty cache now
+        for _ in 0..3 {
+            tokio::task::yield_now().await;
+        }
+        c
+    });
+    let cache = Arc::new(cache);
+    let rt = Mutex::new(rt);
+    Arc::new(move |op, k, id| {
+        if op == "sweep" {
+            let g = rt.lock().unwrap_or_else(std::sync::PoisonError::into_inner);
+            g.block_on(async {
+                tokio::time::advance(TICK).await;
+                for _ in 0..3 {
+                    tokio::task::yield_now().await;
+                }
+            });
+            json!("ok")
+        } else {
+            futures::executor::block_on(exec(&*cache, op, k, id))
+        }
+    })
+}
+fn diskc_exec(dir: &std::path::Path) -> Exec {
+    // the second background task runs the `sync` command at every sync interval (and once at start): it is
+    // kept out of the way (main() empties PATH for this target, so the command is simply not found)
+    let cfg = DiskCacheConfig { cleanup_interval: TICK, sync_interval: Duration::from_secs(1 << 40), ..DiskCacheConfig::new(dir.to_path_buf()).with_subdirectories(false, 0) };
+    ticking_exec(move || DiskCache::<RibbitKey>::new_with_background_tasks(cfg).expect("disk cache with background tasks"))
+}
+fn memc_exec() -> Exec {
+    let cfg = MemoryCacheConfig { cleanup_interval: TICK, ..MemoryCacheConfig::new().with_max_entries(100_000) };
+    ticking_exec(move || MemoryCache::<RibbitKey>::new_with_cleanup(cfg).expect("memory cache with cleanup"))
+}
+
 fn run_one(cache: Exec, prog: &Value, ctl: &Arc<Ctl>, target: &str, probes: &[&str]) -> Value {
     let nkeys = prog["init"].as_array().unwrap().len() as u64;
     let progs: Vec<Vec<Value>> = prog["progs"].as_array().unwrap().iter().map(|p| p.as_array().unwrap().clone()).collect();
@@ -312,10 +358,12 @@ fn run_one(cache: Exec, prog: &Value, ctl: &Arc<Ctl>, target: &str, probes: &[&s
                 };
                 let ret = stamp();
                 let (name, id) = if dyn_target { (if name == "remove" { "remove_u" } else { name }, k) } else { (name, id) };
-                if name == "clear" && res == json!("ok") {
-                    // a clear is judged per key (a sharded map empties shard by shard): one record per key
+                if (name == "clear" || name == "sweep") && res == json!("ok") {
+                    // a clear is judged per key (a sharded map empties shard by shard): one record per key;
+                    // likewise a tick of the cleanup task (it visits the keys one after the other)
+                    let per_key = if name == "clear" { "clear_k" } else { "sweep_k" };
                     for kk in 1..=nkeys {
-                        recs.push(op_record(t + 1, i + 1, "clear_k", kk, id, inv, ret, res.clone()));
+                        recs.push(op_record(t + 1, i + 1, per_key, kk, id, inv, ret, res.clone()));
                     }
                 } else {
                     recs.push(op_record(t + 1, i + 1, name, k, id, inv, ret, res));
@@ -370,8 +418,18 @@ fn run_one(cache: Exec, prog: &Value, ctl: &Arc<Ctl>, target: &str, probes: &[&s
             Err(_) => ops.push(json!({"t": 99, "i": 0, "op": "thread_panic", "k": 0, "id": 0, "inv": stamp(), "ret": stamp(), "res": "err"})),
         }
     }
-    // sequential probes (task 0): every key, then the books
+    // sequential probes (task 0): every key, then the books (cleanup targets: the books first as well - a
+    // lookup purges an expired entry, which would hide what the cleanup task left behind)
     let mut i = 100;
+    if target == "memc" || target == "diskc" {
+        for name in probes {
+            let inv = stamp();
+            let res = cache(name, 0, 0);
+            let ret = stamp();
+            ops.push(op_record(0, i, name, 0, 0, inv, ret, res));
+            i += 1;
+        }
+    }
     for k in 1..=nkeys {
         let inv = stamp();
         let res = cache("get", k, 0);
@@ -425,6 +483,12 @@ fn run_one(cache: Exec, prog: &Value, ctl: &Arc<Ctl>, target: &str, probes: &[&s
 fn random_program(rng: &mut Rng, tasks: u64, nops: u64, keys: u64, target: &str) -> Value {
     let (kinds, names): (&[&str], &[&str]) = if target == "dyn" {
         (&["none", "live"], &["get", "contains", "put", "remove", "get", "put"])
+    } else if target == "diskc" {
+        (&["none", "live", "exp"], &["get", "put", "put_exp", "put_exp", "remove", "clear", "sweep", "sweep", "size"])
+    } else if target == "memc" {
+        // no size() in the parallel part: MemoryCache's counters lag behind its map while an operation is in
+        // flight, and the property asks for the books only once all tasks have finished
+        (&["none", "live", "exp"], &["get", "contains", "put", "put_exp", "put_exp", "remove", "clear", "sweep", "sweep"])
     } else {
         (&["none", "live", "exp"], &["get", "contains", "put", "put_exp", "remove", "clear", "get", "put"])
     };
@@ -434,7 +498,7 @@ fn random_program(rng: &mut Rng, tasks: u64, nops: u64, keys: u64, target: &str)
             (0..nops)
                 .map(|_| {
                     let n = *rng.pick(names);
-                    json!({"op": n, "k": if n == "clear" { 0 } else { 1 + rng.below(keys) }})
+                    json!({"op": n, "k": if matches!(n, "clear" | "sweep" | "size") { 0 } else { 1 + rng.below(keys) }})
                 })
                 .collect()
         })
@@ -455,6 +519,13 @@ fn main() {
     let mut rng = Rng::new(seed_from_env());
     for _ in 0..nrand {
         programs.push(random_program(&mut rng, arg_u64(&args, "--tasks", 3), arg_u64(&args, "--ops", 3), arg_u64(&args, "--keys", 2), &target));
+    }
+    if target == "diskc" {
+        // no thread has been started yet
+        #[allow(unused_unsafe)]
+        unsafe {
+            std::env::set_var("PATH", "/nonexistent-verif-path")
+        };
     }
     let ctl = Arc::new(Ctl { st: Mutex::new(CtlState { generation: 0, tasks: vec![], grant: None, free: true }), cv: Condvar::new() });
     let c2 = ctl.clone();
@@ -496,6 +567,14 @@ fn main() {
             let v = run_one(dyn_exec(&dir), prog, &ctl, "dyn", &[]);
             let _ = std::fs::remove_dir_all(&dir);
             v
+        } else if target2 == "diskc" {
+            let n = counter.fetch_add(1, Ordering::Relaxed);
+            let dir = base.join(format!("s{n}"));
+            let v = run_one(diskc_exec(&dir), prog, &ctl, "diskc", &["size", "mem"]);
+            let _ = std::fs::remove_dir_all(&dir);
+            v
+        } else if target2 == "memc" {
+            run_one(memc_exec(), prog, &ctl, "memc", &["size", "mem"])
         } else if target2 == "mem" {
             let cache = Arc::new(MemoryCache::<RibbitKey>::new(MemoryCacheConfig::new().with_max_entries(100_000)).expect("memory cache"));
             run_one(cache_exec(cache), prog, &ctl, "mem", &["size", "mem"])
